@@ -10,7 +10,9 @@ mod ptrace;
 mod sim;
 mod c_node;
 mod c_confchange;
+mod monitor;
 mod c_raftlog;
+mod findings;
 
 fn main() {
     let args: Vec<String> = std::env::args().collect();
@@ -26,6 +28,8 @@ fn main() {
         "memstorage" => c_memstorage::main(rest),
         "node" => c_node::main(rest),
         "confchange" => c_confchange::main(rest),
+        "monitor" => monitor::main(rest),
+        "finding" => findings::main(rest),
         "raftlog" => c_raftlog::main(rest),
         other => {
             eprintln!("unknown component {}", other);
